@@ -867,6 +867,139 @@ func (sc *c9rScenario) genStmt() *c9rSel {
 	return s
 }
 
+// ---------- the alias-shadowing family ----------
+
+// c9rShadowVariants: position of the shadowed table (3) x comma list / JOIN (2) x extra clause (2) x literal / placeholder (2)
+const c9rShadowVariants = 24
+
+func (sc *c9rScenario) shadowCol(q, col string) *c9rExpr {
+	return &c9rExpr{k: "col", q: q, c: col, sq: sc.ident(q, true), sc: sc.ident(col, true)}
+}
+
+func (sc *c9rScenario) shadowCmp(q, col string, par bool) *c9rCond {
+	c := &c9rCond{k: "cmp", l: sc.shadowCol(q, col)}
+	c.op, c.opSQL = "OpEq", "="
+	if sc.r.Intn(5) == 0 {
+		c.op, c.opSQL = "OpNe", "<>"
+	}
+	if par {
+		c.r = &c9rExpr{k: "par"}
+	} else {
+		c.r = &c9rExpr{k: "lit", v: sc.pool[sc.r.Intn(len(sc.pool))]}
+	}
+	return c
+}
+
+// genShadow: a statement in which table B is given an alias spelled like the real name of ANOTHER table A of the
+// configuration, and the compared column is qualified by that alias (so it is B's column). A is listed under an alias of
+// its own BEFORE B (v%3 = 0), AFTER B (1), or not at all (2); the entries form a comma list or a JOIN tree; the
+// qualifier is used in WHERE and (JOIN) in ON. A and B are chosen to differ in the searchable setting of the column
+// whenever the configuration has such a pair.
+func (sc *c9rScenario) genShadow(v int) *c9rSel {
+	r := sc.r
+	sc.nextAl = 0
+	pos, join, extra, par := v%3, (v/3)%2 == 1, (v/6)%2 == 1, (v/12)%2 == 1
+	type pick struct {
+		a, b *c9rTable
+		col  string
+	}
+	var differ, same []pick
+	for _, a := range sc.tabs {
+		for _, b := range sc.tabs {
+			if a == b {
+				continue
+			}
+			for _, c := range b.cols[1:] {
+				has := false
+				for _, ac := range a.cols {
+					has = has || ac == c
+				}
+				if !has {
+					continue
+				}
+				if a.srch[c] != b.srch[c] {
+					differ = append(differ, pick{a, b, c})
+				} else {
+					same = append(same, pick{a, b, c})
+				}
+			}
+		}
+	}
+	var p pick
+	switch {
+	case len(differ) > 0 && (len(same) == 0 || r.Intn(6) > 0):
+		p = differ[r.Intn(len(differ))]
+		sc.rep.Count("shadow:settings-differ")
+		if p.b.srch[p.col] {
+			sc.rep.Count("shadow:aliased-table-searchable")
+		} else {
+			sc.rep.Count("shadow:shadowed-table-searchable")
+		}
+	case len(same) > 0:
+		p = same[r.Intn(len(same))]
+		sc.rep.Count("shadow:settings-equal")
+	default:
+		return sc.genStmt()
+	}
+	sc.rep.Count(fmt.Sprintf("shadow:pos%d join=%v extra=%v par=%v", pos, join, extra, par))
+	q := p.a.name // the alias of B, spelled like the real name of A
+	eb := sc.genBase(p.b.name, q)
+	var ents []*c9rTref
+	aAl := ""
+	switch pos {
+	case 0:
+		aAl = sc.freshAlias()
+		ents = []*c9rTref{sc.genBase(p.a.name, aAl), eb}
+	case 1:
+		aAl = sc.freshAlias()
+		ents = []*c9rTref{eb, sc.genBase(p.a.name, aAl)}
+	default:
+		ents = []*c9rTref{eb}
+	}
+	if pos == 2 || (extra && !join) {
+		// one more table under a fresh alias, in front or behind
+		o := sc.tabs[r.Intn(len(sc.tabs))]
+		eo := sc.genBase(o.name, sc.freshAlias())
+		if r.Intn(2) == 0 {
+			ents = append([]*c9rTref{eo}, ents...)
+		} else {
+			ents = append(ents, eo)
+		}
+	}
+	s := &c9rSel{kind: "select"}
+	if join {
+		cur := ents[0]
+		for i := 1; i < len(ents); i++ {
+			j := &c9rTref{k: "join", l: cur, r: ents[i]}
+			lv, rv := ents[i-1].alias, ents[i].alias
+			on := &c9rCond{k: "cmp", op: "OpEq", opSQL: "=", l: sc.shadowCol(lv, "id"), r: sc.shadowCol(rv, "id")}
+			if extra && (lv == q || rv == q) {
+				sc.rep.Count("shadow:qualifier-in-on")
+				on = &c9rCond{k: "and", a: on, b: sc.shadowCmp(q, p.col, par && r.Intn(2) == 0)}
+			}
+			j.on = on
+			cur = j
+		}
+		s.from = []*c9rTref{cur}
+	} else {
+		s.from = ents
+	}
+	s.items = []c9rItem{{q: q, c: "id"}}
+	w := sc.shadowCmp(q, p.col, par)
+	if aAl != "" && r.Intn(3) == 0 {
+		// the shadowed table's own column beside it
+		sc.rep.Count("shadow:both-tables-compared")
+		w2 := sc.shadowCmp(aAl, p.col, false)
+		if r.Intn(2) == 0 {
+			w = &c9rCond{k: "and", a: w, b: w2}
+		} else {
+			w = &c9rCond{k: "or", a: w, b: w2}
+		}
+	}
+	s.w = w
+	return s
+}
+
 // ---------- evaluator (three-valued, real SQL scoping) ----------
 
 type c9rRow struct {
